@@ -1,8 +1,8 @@
 #!/verif/.venv/bin/python
 # Replay of a solver counterexample against the unmodified code (no shims).
-# property=C09 kernel=atomic label=atomic:eom_off#1
+# property=C09 kernel=atomic label=atomic:align#1
 import sys
 sys.path[:0] = ['/repo' + "/pulser-core", '/repo' + "/pulser-simulation", "/verif"]
 from symx.replay import replay
-sys.exit(replay(check='checks.c09', kernel='atomic', shape={'device': 'virt_maxseq', 'prefix': 'p1', 'ops': ['eom_on', 'eom_off']},
-                assignment={'pd0/k': 974, 'pd1/k': 2, 'buf#1.start': 0, 'buf#1.end': 4, 'buf#2.start': 0, 'buf#2.end': 5, 'buf#9.start': 0, 'buf#9.end': 0, 'buf#10.start': 0, 'buf#10.end': 1}, label='atomic:eom_off#1'))
+sys.exit(replay(check='checks.c09', kernel='atomic', shape={'device': 'virt_maxseq', 'prefix': 'p2', 'ops': ['delay_rest', 'align']},
+                assignment={'pd1/k': 2, 'pd2/k': 987, 'buf#1.start': 0, 'buf#1.end': 0, 'buf#2.start': 0, 'buf#2.end': 1, 'dl0': 3957, 'buf#7.start': 0, 'buf#7.end': 2, 'buf#8.start': 0, 'buf#8.end': 3}, label='atomic:align#1'))
